@@ -313,3 +313,66 @@ def restrict(v: Any, pc: List[Term]) -> Any:
         return x
 
     return go(v)
+
+
+def guard_under(g: Any, atom: Any, depth: int = 0) -> Optional[bool]:
+    """Three-valued value of a guard when `atom(term)` gives the truth of some atomic conditions (None: unknown).
+    Understands not / and / or, `x is [not] None` where x is a chain of conditional values, and bool constants."""
+    if depth > 14 or not isinstance(g, tuple) or not g:
+        return None
+    r = atom(g)
+    if r is not None:
+        return r
+    if g[0] == "c":
+        return bool(g[1])
+    if g[0] == "not" and len(g) == 2:
+        r = guard_under(g[1], atom, depth + 1)
+        return None if r is None else not r
+    if g[0] in ("and", "or"):
+        rs = [guard_under(x, atom, depth + 1) for x in g[1:]]
+        if g[0] == "and":
+            return False if any(x is False for x in rs) else True if all(x is True for x in rs) else None
+        return True if any(x is True for x in rs) else False if all(x is False for x in rs) else None
+    if g[0] == "cmp" and g[1] in ("is not", "is") and len(g) == 4 and isinstance(g[3], tuple) and g[3][:1] == ("c",) and g[3][1] is None:
+        x = g[2]
+        while isinstance(x, tuple) and x[:1] == ("ite",) and len(x) == 4:
+            cnd = guard_under(x[1], atom, depth + 1)
+            if cnd is None:
+                return None
+            x = x[2] if cnd else x[3]
+        if isinstance(x, tuple) and x[:1] == ("c",):
+            isnone = x[1] is None
+        elif isinstance(x, tuple) and x[:1] in (("sym",), ("obj",), ("enum",), ("tuple",), ("seq",)):
+            isnone = False
+        else:
+            return None
+        return isnone if g[1] == "is" else not isnone
+    return None
+
+
+def collection_facts(arg: Any, empty: Optional[bool], dup: Optional[bool]) -> Any:
+    """atom() for guard_under: what is known about a collection argument (empty? names an element twice?)."""
+    ln, ls = ("len", arg), ("len", ("app", "set", arg))
+    c0, c1 = ("c", 0), ("c", 1)
+    nonempty = {("truthy", arg), ("cmp", ">", ln, c0), ("cmp", "!=", ln, c0), ("cmp", ">=", ln, c1)}
+    isempty = {("cmp", "<=", ln, c0), ("cmp", "==", ln, c0), ("cmp", "<", ln, c1)}
+    dups = {("cmp", "!=", ln, ls), ("cmp", "!=", ls, ln), ("cmp", "<", ls, ln), ("cmp", ">", ln, ls)}
+    nodups = {("cmp", "==", ln, ls), ("cmp", "==", ls, ln)}
+
+    def atom(g: Any) -> Optional[bool]:
+        if empty is not None:
+            if g in nonempty:
+                return not empty
+            if g in isempty:
+                return empty
+        if dup is not None:
+            if g in dups:
+                return dup
+            if g in nodups:
+                return not dup
+        if empty is True and (g in nodups):
+            return True      # an empty collection has no duplicates
+        if empty is True and (g in dups):
+            return False
+        return None
+    return atom
